@@ -84,23 +84,34 @@ structure Frame (f f' : File) : Prop where
   len_le : f.index.length ≤ f'.index.length
   len_ub : f'.index.length ≤ max f.index.length (f.nEvents + 1)
   cols : ∃ ext, f'.cols = f.cols ++ ext
+  len_cases : f'.index.length = f.index.length ∨ f'.index.length = max f.index.length (f.nEvents + 1)
+  ex_mono : ∀ t, f.exists_ t = true → f'.exists_ t = true
+  len_ex : f'.index.length ≠ f.index.length → ∃ t, f'.exists_ t = true
 
 theorem Frame.refl (f : File) : Frame f f :=
-  ⟨rfl, rfl, fun _ _ _ => rfl, Nat.le_refl _, by omega, ⟨[], by simp⟩⟩
+  ⟨rfl, rfl, fun _ _ _ => rfl, Nat.le_refl _, by omega, ⟨[], by simp⟩, Or.inl rfl, fun _ h => h, fun h => absurd rfl h⟩
 
 theorem Frame.trans {a b c : File} (h1 : Frame a b) (h2 : Frame b c) : Frame a c := by
-  refine ⟨h2.nEvents.trans h1.nEvents, h2.calls.trans h1.calls, ?_, Nat.le_trans h1.len_le h2.len_le, ?_, ?_⟩
+  refine ⟨h2.nEvents.trans h1.nEvents, h2.calls.trans h1.calls, ?_, Nat.le_trans h1.len_le h2.len_le, ?_, ?_, ?_,
+    fun t h => h2.ex_mono t (h1.ex_mono t h), ?_⟩
   · intro i hi t
     rw [h2.cells i (by rw [h1.nEvents]; exact hi) t, h1.cells i hi t]
   · have := h2.len_ub; have := h1.len_ub; rw [h1.nEvents] at *; omega
   · obtain ⟨e1, h1'⟩ := h1.cols
     obtain ⟨e2, h2'⟩ := h2.cols
     exact ⟨e1 ++ e2, by rw [h2', h1', List.append_assoc]⟩
+  · have := h1.len_cases; have := h2.len_cases; have := h1.nEvents; omega
+  · intro hne
+    by_cases hbc : c.index.length = b.index.length
+    · obtain ⟨t, ht⟩ := h1.len_ex (by rw [← hbc]; exact hne)
+      exact ⟨t, h2.ex_mono t ht⟩
+    · exact h2.len_ex hbc
 
 theorem writeIdx_frame (f : File) (t : Tbl) (v : Cell) : Frame f (writeIdx f f.nEvents t v) := by
   have hf := writeIdx_fields f f.nEvents t v
   by_cases h : f.exists_ t = true
-  · refine ⟨hf.2.2.2.1, hf.2.2.2.2.2, ?_, ?_, ?_, writeIdx_cols _ _ _ _⟩
+  · refine ⟨hf.2.2.2.1, hf.2.2.2.2.2, ?_, ?_, ?_, writeIdx_cols _ _ _ _, Or.inr (writeIdx_length h),
+      fun t' h' => by rw [hf.2.1]; exact h', fun _ => ⟨t, by rw [hf.2.1]; exact h⟩⟩
     · intro i hi t'
       rw [writeIdx_cell h]; simp [hi]
     · rw [writeIdx_length h]; omega
@@ -150,7 +161,8 @@ def W (c : Nat) (v : View) (n stage : Nat) : View :=
 def igFile (f : File) (t : Tbl) (n : Nat) : File := growTbl (incCounter f t n) t (f.counter t) n
 
 theorem ig_frame (f : File) (t : Tbl) (n : Nat) : Frame f (igFile f t n) :=
-  ⟨rfl, rfl, fun _ _ _ => rfl, Nat.le_refl _, by simp [igFile, growTbl, incCounter]; omega, ⟨[], by simp [igFile, growTbl, incCounter]⟩⟩
+  ⟨rfl, rfl, fun _ _ _ => rfl, Nat.le_refl _, by simp [igFile, growTbl, incCounter]; omega, ⟨[], by simp [igFile, growTbl, incCounter]⟩, Or.inl rfl,
+    fun t' h' => by simp [igFile, growTbl, incCounter, h'], fun h => absurd rfl h⟩
 
 theorem ig_view_ne (f : File) {t t' : Tbl} (n : Nat) (h : t' ≠ t) : view (igFile f t n) t' = view f t' := by
   simp [view, igFile, growTbl, incCounter, h, cell]
@@ -161,10 +173,10 @@ theorem ig_view_eq (f : File) (t : Tbl) (n : Nat) :
   simp [view, igFile, growTbl, incCounter, cell]
 
 theorem bump_frame (f : File) (th : Nat) : Frame f (bumpThrown f th) :=
-  ⟨rfl, rfl, fun _ _ _ => rfl, Nat.le_refl _, Nat.le_max_left _ _, ⟨[], by simp [bumpThrown]⟩⟩
+  ⟨rfl, rfl, fun _ _ _ => rfl, Nat.le_refl _, Nat.le_max_left _ _, ⟨[], by simp [bumpThrown]⟩, Or.inl rfl, fun _ h => h, fun h => absurd rfl h⟩
 
 theorem inc_frame (f : File) (t : Tbl) (n : Nat) : Frame f (incCounter f t n) :=
-  ⟨rfl, rfl, fun _ _ _ => rfl, Nat.le_refl _, Nat.le_max_left _ _, ⟨[], by simp [incCounter]⟩⟩
+  ⟨rfl, rfl, fun _ _ _ => rfl, Nat.le_refl _, Nat.le_max_left _ _, ⟨[], by simp [incCounter]⟩, Or.inl rfl, fun _ h => h, fun h => absurd rfl h⟩
 
 /-- stage 3 of `writeTbl` -/
 def iwFile (f : File) (t : Tbl) (n : Nat) : File := writeIdx (igFile f t n) f.nEvents t (f.counter t, n)
